@@ -89,12 +89,7 @@ theorem Demand.propagates {lib : Lib} {p c : Expr} {x : Err} (d : Demand lib p c
   | seqTail hv => exact Eval.seqErrTl hv h
   | tagsArg hm => exact Eval.applyTagsErr (err_of_mem hm h)
   | joined => exact Eval.join h
-  | subrun =>
-    rename_i ne
-    cases ne with
-    | true => exact Eval.subrunErrNew h
-    | false =>
-      exact Eval.subrunErrExt h (value_self _ (by simp [isValue, allValues, keysOk, simpleKeys, simpleKey, nodupKeys]))
+  | subrun => exact Eval.subrunErr h
   | mapTask => exact Eval.mapTaskErr h
   | mapValues ha hr => exact Eval.mapValuesErr ha hr h
   | mapCallsRaw ha hr hc => exact Eval.mapRaw ha hr hc h
